@@ -547,8 +547,122 @@ class FA:
                 return v.args[0][const_val(idx)]
             return set_ty(mk("index", v, idx), ty)
         if c.op == "pd":
+            if v.op in ("phi", "field") and not getattr(self, "_no_phi_select", False):
+                # (x as Variant_k) is evaluated only where x's discriminant is k: of the values merged in x, those built in place as another
+                # variant cannot be the one read.  If exactly one merged value can be of variant k, the projection reads that one (also through
+                # nested payloads: ((r as Ok).0 as Some) with r merged from Ok(Some(e)), Ok(None), Err(..)).
+                cands = self._candidates(v, 0)
+                if cands is not None:
+                    hit = []
+                    for x in cands:
+                        kx = self._variant_of(x)
+                        if kx is None:
+                            hit = None
+                            break
+                        if kx == c.args[1] and not any(x is y for y in hit):
+                            hit.append(x)
+                    if hit is not None and len(hit) == 1:
+                        v = hit[0]
             return set_ty(mk("downcast", v, c.args[1]), ty_of(v))
         return set_ty(mk("proj", v, c.args[1]), ty)
+
+    def _variant_of(self, x):
+        if x.op == "agg" and len(x.args) >= 3 and isinstance(x.args[1], int) and self._is_enum_agg(x):
+            return x.args[1]
+        if x.op == "call" and isinstance(x.args[0], str) and x.args[0].endswith("::from_residual"):
+            return 1
+        return None
+
+    def _candidates(self, t, depth):
+        """the values a term built from phis / payload projections of in-place enum aggregates can stand for; None if unknown"""
+        if depth > 6:
+            return None
+        if t.op == "agg" or (t.op == "call" and isinstance(t.args[0], str) and t.args[0].endswith("::from_residual")):
+            return [t]
+        if t.op == "phi":
+            busy = getattr(self, "_selecting", None)
+            if busy is None:
+                busy = self._selecting = set()
+            if t in busy:
+                return None
+            busy.add(t)
+            try:
+                out = []
+                try:
+                    ops = self.phi_operands(t)
+                except Exception:
+                    return None
+                for pb, w in ops:
+                    if w is t:
+                        continue
+                    c = self._candidates(w, depth + 1)
+                    if c is None:
+                        return None
+                    out.extend(c)
+                return out
+            finally:
+                busy.discard(t)
+        if t.op == "field" and t.args[0].op == "downcast":
+            base = self._candidates(t.args[0].args[0], depth + 1)
+            if base is None:
+                return None
+            out = []
+            for x in base:
+                kx = self._variant_of(x)
+                if kx is None:
+                    return None
+                if kx == t.args[0].args[1]:
+                    if x.op != "agg" or t.args[1] >= len(x.args[3]):
+                        return None
+                    out.append(x.args[3][t.args[1]])
+            return out
+        return None
+
+    def _select_variant(self, phi, k, depth):
+        if depth > 3 or phi in getattr(self, "_selecting", ()):
+            return None
+        sel = getattr(self, "_selecting", None)
+        if sel is None:
+            sel = self._selecting = set()
+        sel.add(phi)
+        try:
+            try:
+                ops = self.phi_operands(phi)
+            except Exception:
+                return None
+            cands = []
+            for pb, w in ops:
+                if w is phi:
+                    continue
+                if w.op == "agg" and len(w.args) >= 3 and isinstance(w.args[1], int) and w.args[2] is not None and w.args[0] not in (None,) and self._is_enum_agg(w):
+                    if w.args[1] == k:
+                        cands.append(w)
+                    continue
+                if w.op == "call" and isinstance(w.args[0], str) and w.args[0].endswith("::from_residual"):
+                    if k == 1:
+                        cands.append(w)          # a residual of a Result is an Err (variant 1)
+                    continue
+                if w.op == "phi":
+                    x = self._select_variant(w, k, depth + 1)
+                    if x is None:
+                        return None
+                    cands.append(x)
+                    continue
+                return None                       # an operand of unknown variant: keep the phi
+            uniq = []
+            for x in cands:
+                if not any(x is y for y in uniq):
+                    uniq.append(x)
+            return uniq[0] if len(uniq) == 1 else None
+        finally:
+            sel.discard(phi)
+
+    def _is_enum_agg(self, w):
+        # agg(path, variant_index, variant_name, ops): enum variants carry a variant name; structs are built with index 0 and their own name
+        adt = self.prog.adts.get(w.args[0]) if self.prog is not None else None
+        if w.args[0] in ("core::option::Option", "core::result::Result", "core::ops::ControlFlow"):
+            return True
+        return bool(adt) and len(adt.get("variants", [])) > 1
 
     def _select(self, v, key):
         """If v is a functional update whose last store is exactly at path [key], return the stored value."""
